@@ -38,14 +38,18 @@ func concResult(tag string, size int) *mcp.CallToolResult {
 	p := concPayload(tag, size)
 	return &mcp.CallToolResult{
 		Content:           []mcp.Content{mcp.NewTextContent(p), mcp.NewImageContent(concPayload(tag+"/img", size/4), "image/png"), mcp.NewTextContent(tag)},
-		StructuredContent: map[string]any{"nonce": tag, "len": len(p), "sum": concSum(p)},
+		// (the members named like JSON-RPC's own: a response is routed by its envelope, whatever its payload says)
+		StructuredContent: map[string]any{"nonce": tag, "len": len(p), "sum": concSum(p), "method": tag, "id": tag,
+			"result": map[string]any{"jsonrpc": "2.0", "error": nil, "params": map[string]any{"method": "tools/call", "id": 1}}},
 	}
 }
 
 func concPrompt(tag string, size int) *mcp.GetPromptResult {
 	p := concPayload(tag, size)
-	return &mcp.GetPromptResult{Description: tag, Messages: []mcp.PromptMessage{
+	r := &mcp.GetPromptResult{Description: tag, Messages: []mcp.PromptMessage{
 		{Role: mcp.RoleUser, Content: mcp.NewTextContent(p)}, {Role: mcp.RoleAssistant, Content: mcp.NewTextContent(concSum(p))}}}
+	r.Meta = map[string]any{"method": tag, "id": 1, "note": `"id":1,"method":"x"`}
+	return r
 }
 
 func concResources(tag string, size int) []mcp.ResourceContents {
@@ -387,6 +391,13 @@ func runConcurrent(c *hk.Ctx) {
 			}
 			callers = append(callers, clientCaller{cl})
 		}
+		// every call is bounded; on a transport where single calls already never returned (reported by the end-to-end
+		// phase) the limit is short, so that the phase ends soon after its first failing call
+		callLimit := 30 * time.Second
+		if neverReturned[pl.mode] > 0 {
+			callLimit = 5 * time.Second
+			c.Tag("e2e.concurrent.short-limit." + pl.mode)
+		}
 		var wg sync.WaitGroup
 		stop := make(chan struct{})
 		var once sync.Once
@@ -412,13 +423,26 @@ func runConcurrent(c *hk.Ctx) {
 							return
 						default:
 						}
-						ctx, cancel := context.WithTimeout(phaseCtx, 30*time.Second)
-						view, err := callers[ci].call(ctx, call.kind, call.tag, call.size)
-						cancel()
+						view, err, never, took := runBounded(phaseCtx, callLimit, func(ctx context.Context) (any, error) {
+							return callers[ci].call(ctx, call.kind, call.tag, call.size)
+						})
 						in := map[string]any{"transport": pl.mode, "request": call.kind, "nonce": call.tag, "size": call.size,
 							"in_flight": fmt.Sprintf("%d clients x %d goroutines", pl.clients, pl.workers)}
 						if stopped() {
 							return // another worker already reported; this call was cut short
+						}
+						if never != "" {
+							c.Count("conc:"+pl.mode+":"+call.tag, false, nil, "e2e.concurrent."+pl.mode)
+							in["handler returns"] = "concResult/concPrompt/concResources(nonce, size) (conc.go)"
+							in["deadline_s"] = callLimit.Seconds()
+							ob := map[string]any{"error": "no return", "after_s": round1(took)}
+							if err != nil {
+								ob["error"] = shortStr(err.Error())
+							}
+							c.Violate(hk.Violation{Fingerprint: "content:" + pl.mode + ":call-never-returns:concurrent",
+								What: "with many calls in flight a call " + never, Input: in, Observed: ob})
+							once.Do(func() { close(stop); phaseCancel() })
+							return
 						}
 						if err != nil {
 							c.Count("conc:"+pl.mode+":"+call.tag, false, nil, "e2e.concurrent."+pl.mode)
